@@ -486,6 +486,33 @@ def e_tail_edit(d, r, lit):
     return "tail:append-copy-of-last"
 
 
+def e_extremes(d, r, lit):
+    """Sizes and characters at the edges: deep nesting, long lists, long / odd strings."""
+    kind = r.choice(["deep", "wide", "longdoc", "oddname", "oddstrings"])
+    names = decl_names(d)
+    if kind == "deep":
+        t: Dict[str, Any] = {"kind": "base", "name": "string"}
+        # arrays and maps only: jsonschema validates a nested or/and/tuple node under each of those three
+        # alternatives in turn, i.e. exponentially in the nesting depth (random types stay at depth <= 3)
+        for i in range(r.choice([12, 40, 80])):
+            t = {"kind": "array", "element": t} if i % 4 else {"kind": "map", "key": {"kind": "base", "name": "string"}, "value": t}
+        d["typeAliases"].append({"name": _fresh(r, "EvoDeep"), "type": t})
+    elif kind == "wide":
+        n = r.choice([300, 1500])
+        d["structures"].append({"name": _fresh(r, "EvoWide"), "properties": [{"name": f"p{i}", "type": {"kind": "base", "name": "string"}, **({"optional": True} if i % 7 == 0 else {})} for i in range(n)]})
+    elif kind == "longdoc":
+        tgt = r.choice(d["structures"] or d["enumerations"] or [d["metaData"]])
+        if tgt is not d["metaData"]:
+            tgt["documentation"] = ("long documentation " * r.choice([50, 5000])) + "end"
+    elif kind == "oddname":
+        nm = r.choice(["__class__", "self", "kind", "name", "a.b", "with space", "日本語", "𐐀𐐁", "", "0", "None", "id_"])
+        d["structures"].append({"name": _fresh(r, "EvoOdd"), "properties": [{"name": nm, "type": {"kind": "base", "name": "string"}}, {"name": nm + "2", "type": {"kind": "reference", "name": r.choice(names) if names else "X"}}]})
+    else:
+        odd = r.choice(["", " ", "\u0000", "\ud800", "line\nbreak", "tab\t", "\u2028", "\\", '"', "'", "null", "true", "1", "{}"])
+        d["typeAliases"].append({"name": _fresh(r, "EvoStr"), "type": {"kind": "stringLiteral", "value": odd}, "documentation": odd, "since": odd})
+    return f"extremes:{kind}"
+
+
 def e_metadata(d, r, lit):
     d["metaData"]["version"] = d["metaData"]["version"] + ".1"
     return "metadata:version"
@@ -493,7 +520,7 @@ def e_metadata(d, r, lit):
 
 STRUCTURAL_EDITS = [e_add_structure, e_add_enum, e_add_alias, e_add_request, e_add_notification, e_remove_decl, e_reorder,
                     e_edit_property, e_edit_property, e_edit_message, e_edit_message, e_edit_enum, e_edit_alias, e_edit_extends, e_metadata,
-                    e_mutate_type_node, e_mutate_type_node, e_mutate_type_node, e_mutate_type_node, e_big_enum_value, e_params_array, e_tail_edit, e_tail_edit]
+                    e_mutate_type_node, e_mutate_type_node, e_mutate_type_node, e_mutate_type_node, e_big_enum_value, e_params_array, e_tail_edit, e_tail_edit, e_extremes, e_extremes]
 
 
 def annotate_only(d: Dict[str, Any], r: random.Random, ref: Ref) -> str:
